@@ -518,6 +518,9 @@ CUSTOM = {
   "three-level": ([("top(r, A)", "mid(r, A, 2) - mid(r, 2, A)"), ("mid(r, U, V)", "low(r, U) * V + low(V, r)"), ("low(x, k)", "k*x^2 + x")], "top 101.0"),
   "as-and-pymath": ([("h(r, A, B)", "as.buck(r, A, B, 2.0) + pymath.exp(-r/B) + as.polynomial(r, 1, A) + pymath.sqrt(A)")], "h 101.0 102.0"),
   "if-and-compare": ([("s(r, A, rc)", "if(r < rc, A*(rc - r)^2, 0) + (r >= rc)*A")], "s 101.0 102.0"),
+  # caller and callee use the same parameter names; the caller needs its own values again after the call
+  "same-parameter-names": ([("bm(r, A, rho)", "A*exp(-r/rho)"), ("two(r, A, rho)", "bm(r, A/10, 2*rho) + bm(r, A, rho) + A*r/rho")], "two 101.0 102.0"),
+  "shifted-argument": ([("lin(r, A)", "A*r + 1"), ("sh(R, a)", "lin(R - 0.25, 2*a) * R + a")], "sh 101.0"),
   "in-modifier": ([("f(r, A)", "A/r"), ("g(r, A)", "f(r, A) + f(r, 2*A)")], "sum(f 101.0, product(g 102.0, as.constant 103.0), >1.5 f 104.0)"),
 }
 
